@@ -968,6 +968,7 @@ func (c *Conn) writeFrame(messageType MessageType, sendOpcode, fin bool, data []
 					}
 
 					i++
+					verifPoint("ws.sendq.afterWrite")
 
 					c.mux.Lock()
 					if c.closed {
